@@ -9,7 +9,8 @@ bad = []
 APU = {"A": 1.0, "Angstrom": 1.0, "Bohr": 0.529177210903, "au": 0.529177210903, "pm": 0.01, "nm": 10.0, "fm": 1e-5}
 m = ml.Molecule(name="g")
 for i, el in enumerate(["C", "O", "H"]):
-    m.add_atom(ml.Atom(el, label=f"{el}{i}"), [1.25 * (i + 1), -1234.5 * i, 12345.0 + i], 0.0)
+    m.add_atom(ml.Atom(el, label=f"{el}{i}", atype=(ml.AtomType.Dummy if i == 1 else ml.AtomType.Regular)), [1.25 * (i + 1), -1234.5 * i, 12345.0 + i], 0.0)
+# (atom 1 is dummy-TYPED but has a real element: the element is part of the geometry)
 m.connect(0, 1)
 if w.get("op") == "xyz-empty":
     for cls_ in (ml.Molecule, ml.Structure, ml.CartesianGeometry):
@@ -64,8 +65,12 @@ elif w.get("op") == "units":
     txt = getattr(m, f"dumps_{fmt}")()
     from io import StringIO
     for u in units:
-        for entry in ("loads", "load", "loads_all", "load_all"):
-            arg = txt if entry.startswith("loads") else StringIO(txt)
+        import tempfile, os
+        fpath = os.path.join(tempfile.mkdtemp(), "f." + fmt)
+        open(fpath, "w").write(txt)
+        for entry in ("loads", "load", "loads_all", "load_all", "load(path)", "load_all(path)"):
+            arg = txt if entry.startswith("loads") else (fpath if entry.endswith("(path)") else StringIO(txt))
+            entry = entry.replace("(path)", "")
             try:
                 r = getattr(ml.Molecule, f"{entry}_{fmt}")(arg, source_units=u)
             except BaseException as ex:
